@@ -310,21 +310,22 @@ def cli_argv(case: Case, work, asm, cfg, out, pp):
     return argv
 
 
-def run_cli(case: Case, timeout: float = 60.0, env_extra=None, cwd=None, root=None) -> Outcome:
+def run_cli(case: Case, timeout: float = 60.0, env_extra=None, cwd=None, root=None, env_base=None) -> Outcome:
     own = root is None
     if own:
         root = tempfile.mkdtemp(prefix='bespokeverif_cli_', dir='/dev/shm' if os.path.isdir('/dev/shm') else None)
     try:
         _last_isa_written.pop(os.path.join(root, 'isa.json'), None)
         work, asm, cfg, out, pp = _materialize(case, root)
-        env = {k: v for k, v in os.environ.items() if not k.startswith('BESPOKEASM_') or k == GUARD}
+        source_env = os.environ if env_base is None else env_base
+        env = {k: v for k, v in source_env.items() if not k.startswith('BESPOKEASM_') or k == GUARD}
         env['PYTHONPATH'] = SRC
         env['PYTHONDONTWRITEBYTECODE'] = '1'
         if env_extra:
             env.update(env_extra)
         try:
             p = subprocess.run(cli_argv(case, work, asm, cfg, out, pp), capture_output=True, text=True,
-                               timeout=timeout, env=env, cwd=cwd or work)
+                               timeout=timeout, env=env, cwd=(work if cwd in (None, '<work>') else root if cwd == '<root>' else cwd))
             status = 'OK' if p.returncode == 0 else 'REJECT'
             detail = None if p.returncode == 0 else (p.stderr.strip().splitlines() or [''])[-1]
             stdout = p.stdout
